@@ -34,7 +34,7 @@ RULE = (
     "modules. non-trivial = exception with a file-backed failing frame below depth 1 or a markup / multi-line message; "
     "distinct by (source shape, position, statement, message class, verbosity, flags)."
 )
-BOUND = {"quick": "700 renders + highlighter over the repository's own 200 files", "thorough": "60000 renders + highlighter over repository, tests and 300 standard-library modules"}
+BOUND = {"quick": "700 renders + highlighter over the repository's own 200 files", "thorough": "250000 renders + highlighter over repository, tests and 300 standard-library modules"}
 ASSUMPTIONS = [
     "'message present' compares after removing style tags and backslash escapes from both sides and collapsing whitespace",
     "a line is 'made of single-line tokens' when Python's tokenize reports no token spanning several lines on it",
@@ -456,7 +456,7 @@ def judge_highlight(sh, env, source, label):
 def plan(tier, seed):
     if tier == "quick":
         return [{"part": "renders", "n": 60} for _ in range(3)] + [{"part": "corpus", "slice": [0, 1]}]
-    return [{"part": "renders", "n": 1000} for _ in range(14)] + [{"part": "corpus", "slice": [i, 2]} for i in range(2)]
+    return [{"part": "renders", "n": 4300} for _ in range(14)] + [{"part": "corpus", "slice": [i, 2]} for i in range(2)]
 
 
 def run(sh, spec):
